@@ -4,22 +4,23 @@ PROP = {
     "title": "Doc-comment markup highlighting is total and in bounds",
     "engine": "E1",
     "level": "exploration",
-    "technique": "runtime monitor: emmylua_parser_desc::parse on generated doc comments for every flavour and a sweep of cursor positions; range/sortedness oracle",
+    "technique": "runtime monitor: emmylua_parser_desc::parse on generated doc comments for every flavour and a sweep of cursor positions, executed in a disposable child process watched by CPU time (termination), range/sortedness oracle",
     "design_ref": "§4 C37",
     "rule": "cases = 1-10 (every 40th: up to 60) comment lines built from 90 block starts (headings, quotes, lists, fences of all lengths and languages, MyST / RST directives, "
             "tables, field lists), 100 inline fragments (emphasis, code, links, roles, javadoc links, unterminated forms, multi-byte text) and 40 code lines for the "
             "embedded lexers, under 20 comment prefixes (---, --, ----, ---@param .., long brackets), LF or CRLF; plus 1/12 G-soup texts; every LuaDocDescription x "
             "8 flavours (Md, MyST +-domain, RST +-domain +-default role) x cursor None / every 8th offset / out-of-range offsets; distinct = FNV of the text; "
             "non-trivial = some parse call returned >= 3 items",
-    "min_nontrivial": {"quick": 15000, "thorough": 400000},
-    "max_secs": {"quick": 75, "thorough": 1000},
+    "min_nontrivial": {"quick": 30000, "thorough": 1000000},
+    "max_secs": {"quick": 55, "thorough": 900},
     "require_clauses": ["a:no-panic", "b:in-bounds", "c:sorted", "family:markup", "family:soup"],
     "assumptions": COMMON_ASSUME + [
         "'inside the description' = inside the LuaDocDescription node, extended to the start of the '---' token directly in front of it (the description parser "
         "reads the rest of that token as the first line); items starting in that token are counted separately",
         "'sorted' = item starts are non-decreasing; the implementation's own tie-break (longer first, scopes first) is counted, not judged",
+        "termination: more than 2 s CPU for one text (normal: 0.2-20 ms) = overrun; attributed to one flavour, shrunk, and confirmed in a fresh child with 8 s CPU, else inconclusive",
     ],
     "level_text": "Generated doc comments are parsed by the real Lua parser and every description is highlighted in 8 flavours with many cursor positions; panics, "
-                  "out-of-bounds or unsorted items are violations. ~40k texts / several million parse calls (quick).",
+                  "out-of-bounds or unsorted items are violations. 16 x 6 000 texts / ~25 million parse calls (quick), 16 x 250 000 texts (thorough).",
     "level_note": "The Miri shard of the design is not part of this check.",
 }
